@@ -180,6 +180,10 @@ class TemplateHandler(dict):
         except ParserException as exc:
             print("Failed to load '%s' due to parser errors:\n %s" % (url, exc))
             return None
+        except (ValueError, IndexError) as exc:
+            # e.g. an included file is not available or lacks the included Section
+            print("Failed to load '%s', unresolved include:\n %s" % (url, exc))
+            return None
 
         with self._lock:
             # If another thread has loaded the same url in the meantime, keep
